@@ -139,7 +139,9 @@ def body_expr(env):
     with env.patch(MODS):
         dT = _arr(env, 'dT', (na, nt), 0, 5000)
         base = {'direct': _arr(env, 'd', (nsf, nt), 1, 10), 'statistical': _arr(env, 's', (nsf, nt), 1, 10)}
-        exprs = {('direct', 0, 1): 'EXPR_A', ('statistical', nsf - 1, nt - 1): 'EXPR_B'}
+        # the same expression text in several columns (what the clad split produces) and rows
+        exprs = {('direct', 0, 1): 'EXPR_A', ('direct', 0, 2): 'EXPR_A', ('statistical', nsf - 1, nt - 1): 'EXPR_B',
+                 ('statistical', 0, 0): 'EXPR_B', ('direct', nsf - 1, 0): 'EXPR_A'}
         seen = []
 
         def fake_eval(expr, dT_col):
